@@ -410,7 +410,8 @@ MANIFEST = {
             "round trip, p'(x_i) at every node including the boundaries, and the closed-form "
             "Chebyshev-weight integral inside the Gauss-Lobatto exactness class; multi-axis "
             "arrays with symbolic entries are shown to be processed slice by slice. Tolerance "
-            "1e-8 absolute. Exhaustive over M<=8, N<=7 (quick) / M<=20, N<=11 (thorough).",
+            "1e-8 absolute. Exhaustive over M<=8, N<=7 (quick) / M<=20, N<=11 (thorough)."
+            " changeBasis of all axes in one call (axes sharing direction and endpoints, opposite senses) equals one axis at a time.",
     "note": "Concrete nodes and matrices are the real code's doubles taken as exact rationals; "
             "the rounding of operations on the symbolic coefficients is outside; evaluation at a "
             "symbolic point only for M<=5 in the cardinal basis.",
